@@ -79,7 +79,7 @@ Inductive event :=
 | EvDone (o : oid) (r : result)
 | EvAccept (a : aid) (o : oid) (k : okind)
 | EvStartEnter (a : aid) | EvStartExit (a : aid) (out : hout)
-| EvHandleEnter (a : aid) (o : oid) | EvHandleExit (a : aid) (o : oid) (out : hout)
+| EvHandleEnter (a : aid) (o : oid) (k : okind) | EvHandleExit (a : aid) (o : oid) (out : hout)
 | EvTellResult (a : aid) (o : oid)
 | EvRunPoll (a : aid)
 | EvRunDone (a : aid) (r : rout)
